@@ -3,8 +3,8 @@
 cd /verif
 for p in "$@"; do
   for m in ${MUTS:-m1 m2}; do
-    [ -f /tmp/seed/$p/OUT/$m/patch.diff ] || continue
-    tools/seed_eval.py import /tmp/seed/$p/OUT/$m ${p}-$m $p
+    [ -f ${SEEDDIR:-/tmp/seed}/$p/OUT/$m/patch.diff ] || continue
+    tools/seed_eval.py import ${SEEDDIR:-/tmp/seed}/$p/OUT/$m ${p}-$m $p
     tools/seed_eval.py confirm ${p}-$m
     [ -f vpgpy/props/$(echo $p | tr A-Z a-z).py ] && tools/seed_eval.py run ${p}-$m
   done
